@@ -179,6 +179,12 @@ func genC11(tier string, rng *Rng) {
 			add("cancel-random", sc)
 		}
 	}
+	// ---- several connections, the panel changing its behaviour from one to the next (matrix.go)
+	for _, sc := range matrixScenarios(tier, false) {
+		id := sc.ID
+		add("matrix", sc)
+		sc.ID = id
+	}
 	meta(map[string]interface{}{"c11_scenarios_by_kind": hist, "scenarios": len(scs)})
 	runBatch(scs, 64)
 	meta(map[string]interface{}{"reruns": rerunCount, "reruns_rescued": rerunRescued})
